@@ -459,11 +459,16 @@ RunInfo run(const sim::Plan &plan) {
             so.file = c.stream;
         }
         int rc;
+        int file_args = c.mode == MODE_STANDARD ? (int)plan.get("file_args", 0) : 0; // 1: both a name and a FILE*, 2: neither - both refused
+        if (file_args == 1) { if (!so.file) { c.stream = simfile::open_write_stream(stream_cb, &c); so.file = c.stream; } so.filename = "/dsim/other"; }
+        if (file_args == 2) { if (c.stream) { fclose(c.stream); c.stream = nullptr; } so.file = nullptr; so.filename = nullptr; c.own_file = false; }
         if (c.mode == MODE_STANDARD) {
             if (cf) sim::set_create_fail(1, cf);
             rc = aws_logger_init_standard(&c.logger, c.alloc, &so);
         } else rc = aws_logger_init_noalloc(&c.logger, c.alloc, &so);
-        bool fopen_fault = c.own_file && plan.get("fopen_fail", 0) != 0;
+        bool fopen_fault = (c.own_file && plan.get("fopen_fail", 0) != 0) || file_args != 0;
+        if (file_args && rc == AWS_OP_SUCCESS) sim::violation("c14:init", "aws_logger_init_standard accepted %s", file_args == 1 ? "both a file name and a FILE*" : "neither a file name nor a FILE*");
+        if (file_args && rc) sim::probe("logger_init_refused_bad_file_arguments");
         if (rc) {
             if (!(cf && c.mode == MODE_STANDARD) && !fopen_fault) sim::violation("c14:init", "logger init failed without an injected fault");
             init_failed = true;
@@ -548,6 +553,7 @@ void gen(uint64_t seed, int tier, sim::Plan &p) {
     p.cfg["alloc_yield"] = r.chance(0.4);
     if (r.chance(0.3)) p.cfg["slow_permille"] = r.pick(std::vector<int64_t>{50, 300, 1000});
     if ((mode == 1 || mode == 3) && r.chance(0.04)) p.cfg["create_fail"] = r.pick(std::vector<int64_t>{EAGAIN, ENOMEM, EPERM});
+    if (mode == 3 && r.chance(0.03)) p.cfg["file_args"] = r.range(1, 2);
     if ((mode == 3 || mode == 4) && r.chance(0.4)) {
         p.cfg["own_file"] = 1;
         if (r.chance(0.08)) p.cfg["fopen_fail"] = r.pick(std::vector<int64_t>{EACCES, ENOENT, EMFILE});
